@@ -91,12 +91,14 @@ Seeds(h) == IF IsRescue(h) THEN {ZeroEls(4), Run(h, "mix", 4)}
 
 Ops == {"hash", "hash_elements", "merge", "merge_many", "merge_with_int"}
 
-Cases(h, op) ==
+Cases(h, op, deg) ==
   CASE op = "hash" ->
          {[h |-> h, op |-> op, bytes |-> MkBytes(k, n) \o Zeros(j)]
             : k \in BKinds, n \in 0..MaxBytes, j \in ByteExt \cup {0}}
     [] op = "hash_elements" ->
-         {[h |-> h, op |-> op, deg |-> 1, elems |-> es] : es \in Flats(FieldOf(h))}
+         \* elements of degree deg are deg consecutive base coordinates; lists of one degree form one family
+         \* (lists of different degrees with the same coordinates hash alike by definition)
+         {[h |-> h, op |-> op, deg |-> deg, elems |-> es] : es \in {x \in Flats(FieldOf(h)) : Len(x) % deg = 0}}
     [] op = "merge_many" ->
          IF IsRescue(h)
            THEN {[h |-> h, op |-> op, ds |-> Group4(es)] : es \in {x \in Flats(h) : Len(x) % 4 = 0}}
@@ -146,11 +148,12 @@ NF(c) == IF IsRescue(c.h) THEN NormalForm(c.h, Plan(c)) ELSE Layout(c)
 (***************************************************************************)
 (* One family per initial state                                            *)
 (***************************************************************************)
-Init == fam \in {[h |-> h, op |-> op] : h \in AllHashers, op \in Ops}
+Init == fam \in {[h |-> h, op |-> op, deg |-> 1] : h \in AllHashers, op \in Ops}
+               \cup {[h |-> h, op |-> "hash_elements", deg |-> d] : h \in AllHashers, d \in {2, 3}}
 Next == UNCHANGED fam
 Spec == Init /\ [][Next]_vars
 
-Members == Cases(fam.h, fam.op)
+Members == Cases(fam.h, fam.op, fam.deg)
 
 \* injectivity of the normal form on the family = no pair of distinct members collides
 Injective(S) == Cardinality({NF(c) : c \in S}) = Cardinality(S)
@@ -158,7 +161,7 @@ Injective(S) == Cardinality({NF(c) : c \in S}) = Cardinality(S)
 \* always TRUE: a collision is a design finding, printed with the pair; the check confirms it on the
 \* real code before it counts.  Every member is printed for the replay on the real hashers.
 Report(S) ==
-  IF Injective(S) THEN PrintT(<<"FAMILY", ToJson([h |-> fam.h, op |-> fam.op, members |-> Cardinality(S)])>>)
+  IF Injective(S) THEN PrintT(<<"FAMILY", ToJson([h |-> fam.h, op |-> fam.op, deg |-> fam.deg, members |-> Cardinality(S)])>>)
   ELSE \A x \in S : \A y \in S :
          (x # y /\ NF(x) = NF(y)) => PrintT(<<"COLLISION", ToJson([x |-> x, y |-> y])>>)
 Emit(S) == \A c \in S : PrintT(<<"REPLAY", ToJson(c)>>)
